@@ -63,7 +63,13 @@ pub fn run_c10(a: &Args) {
             continue;
         }
         let mut rng = Rng::new(mix(a.seed ^ 0xC10, idx));
-        let case = if idx % 6 == 5 {
+        let case = if idx % 300 == 299 {
+            // node counts at and around multiples of 64
+            let n = *rng.pick(&[63usize, 64, 65, 127, 128, 129, 192]);
+            ctx::count("reach:node-count-around-multiple-of-64");
+            let fam: &'static str = *rng.pick(&["gnp_sparse", "components", "nested_scc", "tree", "cycle"]);
+            gen_case(*rng.pick(&kinds), fam, n, WClass::Unweighted, &GenOpts { self_loops: rng.coin(), parallel: rng.coin(), shuffle_edges: true }, &mut rng)
+        } else if idx % 6 == 5 {
             random_case(&mut rng, 13, if a.thorough { 60 } else { 40 }, &kinds, &[WClass::Unweighted, WClass::Exact])
         } else {
             random_case(&mut rng, 0, 12, &kinds, &[WClass::Unweighted, WClass::Exact])
@@ -262,6 +268,15 @@ fn c11_case(rng: &mut Rng, multi: bool) -> GCase {
         }
         ctx::count("reach:all-weights-below-1");
     }
+    if wclass.weighted() && rng.chance(1, 6) {
+        // weights 20 orders of magnitude apart inside one graph
+        for e in case.edges.iter_mut() {
+            if rng.coin() {
+                e.2 *= 1e-20;
+            }
+        }
+        ctx::count("reach:weights-20-orders-of-magnitude-apart");
+    }
     if wclass.weighted() {
         // "self-loops never count": keep loop weights from deciding the normalising maximum
         let minw = case.edges.iter().map(|e| e.2).fold(f64::INFINITY, f64::min);
@@ -281,8 +296,17 @@ pub fn run_c11(a: &Args) {
             continue;
         }
         let mut rng = Rng::new(mix(a.seed ^ 0xC11, idx));
-        let multi = idx % 12 == 11;
-        let case = c11_case(&mut rng, multi);
+        let large = idx % 400 == 399;
+        let multi = idx % 12 == 11 && !large;
+        let case = if large {
+            // more than 100 nodes: any size-triggered fast path, with subsets of 1..3 nodes
+            ctx::count("reach:graph-with-more-than-100-nodes");
+            let fam: &'static str = *rng.pick(&["gnp_sparse", "tree", "nested_scc", "components"]);
+            let n = *rng.pick(&[101usize, 120, 130]);
+            gen_case(Specs::kind(rng.coin(), false, rng.coin()), fam, n, *rng.pick(&[WClass::Unweighted, WClass::Exact]), &GenOpts { self_loops: true, parallel: false, shuffle_edges: true }, &mut rng)
+        } else {
+            c11_case(&mut rng, multi)
+        };
         ctx::case_desc(case.json());
         let g = case.build();
         let d = Dense::from_graph(&g);
@@ -341,6 +365,11 @@ pub fn run_c11(a: &Args) {
         if n >= 2 {
             for k in 0..8 {
                 let mut s: Vec<usize> = (0..n).filter(|_| rng.chance(1, 3)).collect();
+                if large {
+                    s = (0..rng.range(1, 3)).map(|_| rng.below(n)).collect();
+                    s.sort();
+                    s.dedup();
+                }
                 if s.is_empty() || k < 2 {
                     s = vec![rng.below(n)]; // singletons whose neighbours lie outside the subset
                 }
@@ -377,7 +406,9 @@ pub fn run_c11(a: &Args) {
                                 fail("clustering", "coefficient-outside-0-1", json!({"node": k, "got": v, "weighted": w, "subset": names}));
                                 break;
                             }
-                            if !approx(*v, want[i]) {
+                            // relative comparison: weighted coefficients can be legitimately tiny
+                            let close = *v == want[i] || (*v - want[i]).abs() <= 1e-9 * v.abs().max(want[i].abs());
+                            if !close {
                                 fail("clustering", if sub.is_some() { "subset-value-differs-from-definition" } else { "value-differs-from-definition" }, json!({"node": k, "got": v, "want": want[i], "weighted": w, "subset": names}));
                                 break;
                             }
@@ -596,7 +627,13 @@ pub fn run_c12(a: &Args) {
             continue;
         }
         let mut rng = Rng::new(mix(a.seed ^ 0xC12, idx));
-        let case = random_case(&mut rng, 1, 25, &kinds, &[WClass::Unweighted, WClass::Exact, WClass::ExactWide, WClass::Generic]);
+        let case = if r % 250 == 249 {
+            let n = *rng.pick(&[63usize, 64, 65, 128, 192]);
+            ctx::count("reach:node-count-around-multiple-of-64");
+            gen_case(*rng.pick(&kinds), "gnp_sparse", n, *rng.pick(&[WClass::Unweighted, WClass::Exact]), &GenOpts { self_loops: rng.coin(), parallel: rng.coin(), shuffle_edges: true }, &mut rng)
+        } else {
+            random_case(&mut rng, 1, 25, &kinds, &[WClass::Unweighted, WClass::Exact, WClass::ExactWide, WClass::Generic])
+        };
         if case.edges.is_empty() {
             continue;
         }
@@ -609,6 +646,7 @@ pub fn run_c12(a: &Args) {
         // a random true partition, possibly with an empty community
         let k = rng.range(1, n.min(6));
         let comm: Vec<usize> = (0..n).map(|_| rng.below(k)).collect();
+        // re-used Arcs of one edge object (vec![edge; k]) are covered by the builder below
         let mut fam: Vec<HashSet<String>> = vec![HashSet::new(); k];
         for i in 0..n {
             fam[comm[i]].insert(d.names[i].clone());
@@ -758,10 +796,14 @@ pub fn run_c13(a: &Args) {
         let kind = kind_class(&g);
         let n = d.n;
         let weighted = case.wclass.weighted() && rng.chance(3, 4);
-        let gamma = *rng.pick(&[0.3, 0.7, 1.0, 1.0, 1.5, 2.0]);
+        let gamma = if rng.coin() { *rng.pick(&[0.3, 0.7, 1.0, 1.0, 1.5, 2.0]) } else { 0.05 + 1.95 * rng.f64() };
         let threshold = *rng.pick(&[0.0, 1e-7, 1e-7, 1e-2, 0.5]);
-        let seed = rng.below(1000) as u64;
-        let opts = json!({"weighted": weighted, "resolution": gamma, "threshold": threshold, "seed": seed});
+        let seed = match rng.below(12) {
+            0 => u64::MAX - rng.below(3) as u64,
+            1 => 1u64 << 63,
+            _ => rng.below(1000) as u64,
+        };
+        let opts = json!({"weighted": weighted, "resolution": gamma, "threshold": threshold, "seed": seed.to_string()});
         ctx::case_desc(json!({"graph": case.json(), "options": opts}));
         let fail = |func: &str, class: &str, detail: Value| {
             ctx::violation(&format!("C13|{}|{}|{}", func, class, kind), &format!("{}: {}", func, class), json!({"detail": detail, "options": opts, "graph": case.json()}));
@@ -947,7 +989,13 @@ pub fn run_c18(a: &Args) {
         let directed = rng.coin();
         let specs = Specs::kind(directed, false, rng.coin());
         let family = *rng.pick(FAMILIES);
-        let n = rng.range(1, if a.thorough { 40 } else { 25 });
+        let n = if idx % 400 == 399 {
+            ctx::count("reach:more-than-256-nodes");
+            *rng.pick(&[257usize, 300, 513])
+        } else {
+            rng.range(1, if a.thorough { 40 } else { 25 })
+        };
+        let family = if n > 256 { *rng.pick(&["gnp_sparse", "tree", "grid"]) } else { family };
         let wclass = *rng.pick(&[WClass::Unweighted, WClass::Exact, WClass::Generic, WClass::ZeroContaining]);
         let case = gen_case(specs, family, n, wclass, &GenOpts { self_loops: rng.coin(), parallel: false, shuffle_edges: true }, &mut rng);
         let g = case.build();
